@@ -5,6 +5,7 @@ import (
 
 	"github.com/sahandsafizadeh/qeep/tensor/internal/tensor"
 )
+import "github.com/sahandsafizadeh/qeep/tensor/internal/verifhook"
 
 func (t *CPUTensor) sum() (value float64) {
 	return t.reduceByAssociativeFunc(func(a, b float64) float64 { return a + b }, 0.)
@@ -90,6 +91,7 @@ func (t *CPUTensor) reduceByAssociativeFunc(af scalarBinaryFunc, identity float6
 	var trav func([]int, any)
 	trav = func(dims []int, data any) {
 		if len(dims) == 0 {
+			verifhook.Point("reduceElem")
 			value = af(value, data.(float64))
 			return
 		}
